@@ -169,6 +169,21 @@ def main():
             except Exception as e:  # noqa: BLE001
                 res["e2e"].append({"ok": False, "msg": str(e), "line": None, "col": None, "err_type": None,
                                    "type": type(e).__name__})
+        # FQN with a scope_redirection_logic: the owner class of a package stands in for the package
+        if case.get("redir_queries"):
+            from textx.scoping import Postponed
+
+            def logic(o):
+                return [o.owner] if type(o).__name__ == "Package" and getattr(o, "owner", None) is not None else []
+            prov_r = sp.FQN(scope_redirection_logic=logic)
+            res["redir_answers"] = []
+            for r, text, T in case["redir_queries"]:
+                ref = ObjCrossRef(obj_name=text, cls=mm[T], position=0, scope_provider=None, match_rule_name="FQN")
+                try:
+                    t = prov_r(objs[r], None, ref)
+                    res["redir_answers"].append("U" if t is None else "P" if type(t) is Postponed else "F%d" % ids[id(t)] if id(t) in ids else "E:foreign")
+                except Exception as e:  # noqa: BLE001
+                    res["redir_answers"].append("E:%s: %s" % (type(e).__name__, e))
         # plain Python objects hung into the parsed model, then direct calls on the extended graph
         if case.get("py"):
             for d in case["py"]:
